@@ -9,6 +9,7 @@ from tiv.astutil import (body_walk, call_name, dotted, enclosing_stmt, guards, n
 from tiv.cfg import CFG, EX, KI, handler_classes
 from tiv.effects import emits, is_output_call, names_in, output_aliases, output_calls
 from tiv.mutate import M
+from tiv.sem import trace, same_bool
 
 RULES = {
     "R1": "every write of HIDE_CURSOR lies inside the body of a try whose finally writes SHOW_CURSOR under a condition implied by "
@@ -114,7 +115,10 @@ def run(ck, m):
             nm = set()
             for a in c.args:
                 nm |= names_in(a)
-            if nm & {"render", "frame", "render_output", "_format_render", "_render_image"} or "next(" in src:
+            tsrc = " ".join(norm(trace(fn, a)) for a in c.args)
+            loop_targets = {norm(n.target) for n in body_walk(fn) if isinstance(n, ast.For)}
+            if nm & {"render", "frame", "render_output", "_format_render", "_render_image"} or "next(" in src \
+                    or any(k in tsrc for k in (".render_output", "_format_render(", "_render_image", "_renderer(", "next(")) or (nm & loop_targets):
                 out.append(c)
         return out
     sites = [(draw_new, {KI}), (animate_new, {KI}), (render_old, {KI, EX}), (anim_old, {KI, EX})]
@@ -141,7 +145,7 @@ def run(ck, m):
                   f"{'an ordinary exception (e.g. OSError from the stream)' if EX in need - covered else 'Ctrl-C'} during the write skips the interrupted-draw hook, leaving the graphics command unterminated",
                   stmt=f"{fn.name}: handlers cover {sorted(need)}: {short(c, 60)}")
             ck.ob("R2", st, ok_hook, "a handler for an interruption of this write does not call the interrupted-draw hook on every path", stmt=f"{fn.name}: hook called in handlers: {short(c, 60)}")
-    ck.expect(n_w >= 6, f"expected >= 6 render-output writes in the draw paths, found {n_w}")
+    ck.expect(n_w >= 4, f"expected >= 4 render-output writes in the draw paths (one per driver), found {n_w}")
 
     # ---- R3 ----------------------------------------------------------------------------
     subs = m.subclasses("GraphicsImage")
@@ -157,17 +161,27 @@ def run(ck, m):
             continue
         c = outs[0]
         arg = c.args[0] if c.args else None
-        first = arg
-        while isinstance(first, ast.BinOp) and isinstance(first.op, ast.Add):
-            first = first.left
-        twice = isinstance(first, ast.BinOp) and isinstance(first.op, ast.Mult) and "ST" in names_in(first) and any(isinstance(x, ast.Constant) and x.value == 2 for x in (first.left, first.right))
+        from tiv import emit
+        flat = []
+
+        def fl_(t_):
+            if isinstance(t_, emit.Seq):
+                for i_ in t_.items:
+                    fl_(i_)
+            elif isinstance(t_, emit.Rep) and isinstance(t_.count, ast.Constant) and isinstance(t_.count.value, int) and 0 <= t_.count.value <= 4:
+                for _ in range(t_.count.value):
+                    fl_(t_.body)
+            else:
+                flat.append(t_)
+        fl_(emit.Builder(hook).expr(arg) if arg is not None else emit.Seq([]))
+        twice = len(flat) >= 2 and all(isinstance(x, emit.Sym) and x.text.split(".")[-1] in ("ST", "ST_b") for x in flat[:2])
         ck.ob("R3", c, twice, f"{cls.name}: the hook must start by writing ST twice (terminate a cut command; konsole needs two); found `{short(arg, 60)}`", stmt=f"{cls.name}: hook starts with ST * 2")
         fl = next((k.value for k in c.keywords if k.arg == "flush"), None)
         ck.ob("R3", c, isinstance(fl, ast.Constant) and fl.value is True, f"{cls.name}: the terminator must be flushed immediately", stmt=f"{cls.name}: hook flushes")
         rend = next((s for s in cls.body if isinstance(s, ast.FunctionDef) and s.name == "_render_image"), None)
         chunked = rend is not None and any(isinstance(x, ast.Call) and (call_name(x) or "").split(".")[-1] in ("get_chunks", "get_chunked") for x in ast.walk(rend))
         if chunked:
-            ck.ob("R3", c, "KITTY_END_CHUNKED" in names_in(arg), f"{cls.name} transmits in chunks; its hook must also send KITTY_END_CHUNKED", stmt=f"{cls.name}: hook ends chunked transmission")
+            ck.ob("R3", c, "KITTY_END_CHUNKED" in names_in(trace(hook, arg)), f"{cls.name} transmits in chunks; its hook must also send KITTY_END_CHUNKED", stmt=f"{cls.name}: hook ends chunked transmission")
 
     # ---- R4 ----------------------------------------------------------------------------
     tr = next((s for s in anim_old.body if isinstance(s, ast.Try) and s.finalbody), None)
@@ -181,8 +195,12 @@ def run(ck, m):
     ck.ob("R4", tr, "self._close_image(img)" in fsrc, "the finally must release the image", stmt="_display_animated: release image")
     uses = []
     for n in body_walk(anim_old):
-        if isinstance(n, ast.Attribute) and n.attr == "_animator" and isinstance(n.ctx, ast.Load):
-            uses.append(n)
+        # the frame generator is advanced by next(<gen>) and by iterating over it
+        x = n.args[0] if isinstance(n, ast.Call) and call_name(n) == "next" and n.args else (n.iter if isinstance(n, ast.For) else None)
+        if x is not None:
+            tx = norm(trace(anim_old, x))
+            if "._animate(" in tx or tx.endswith("._animator"):
+                uses.append(x)
     ck.expect(len(uses) >= 2, "_display_animated: uses of the frame generator not found")
     for u in uses:
         inside = any(t is tr and part == "body" for t, part in try_context(u))
@@ -193,7 +211,7 @@ def run(ck, m):
     rt = next((s for s in rnd.body if isinstance(s, ast.Try) and s.finalbody), None)
     ck.need(rt is not None, "_renderer: try/finally not found")
     sv = [s for s in rnd.body if isinstance(s, ast.Assign) and norm(s.value) == "self._size" and s.lineno < rt.lineno]
-    ok = bool(sv) and any(isinstance(s, ast.If) and "isinstance" in norm(s.test) and norm(sv[0].targets[0]) in norm(s.test) and
+    ok = bool(sv) and any(isinstance(s, ast.If) and same_bool(rnd, s.test, f"isinstance({norm(sv[0].targets[0])}, Size)") and
                           any(norm(x) in (f"self.size = {norm(sv[0].targets[0])}", f"self._size = {norm(sv[0].targets[0])}") for x in s.body) for s in rt.finalbody)
     ck.ob("R4", rt, ok, "_renderer must save `self._size` before its try and restore a dynamic (Size) value in finally", stmt="_renderer: dynamic size restored")
     fins = [t for t in body_walk(draw_new) if isinstance(t, ast.Try) and t.finalbody]
